@@ -286,7 +286,35 @@ func genC01Mutant(t *rapid.T) c01Case {
 
 // ---------- generator 3: import closures ----------
 
+// genC01BigClosure: many trivial files in a long import chain, a wide fan whose members import further
+// files, or both (nothing bounds the depth or width of an import closure; resources that are held per
+// retrieval in flight run out here).
+func genC01BigClosure(t *rapid.T) c01Case {
+	c := c01Case{Files: map[string]string{}, Root: "r.sysl", How: "closure"}
+	depth := rapid.IntRange(1, 16).Draw(t, "chaindepth")
+	width := rapid.IntRange(1, 14).Draw(t, "fanwidth")
+	var root strings.Builder
+	for w := 0; w < width; w++ {
+		for d := 0; d < depth; d++ {
+			name := fmt.Sprintf("w%dd%d.sysl", w, d)
+			txt := ""
+			if d+1 < depth {
+				txt = fmt.Sprintf("import w%dd%d\n\n", w, d+1)
+			} else if rapid.IntRange(0, 3).Draw(t, "backedge") == 0 {
+				txt = "import /r\n\n" // back to the root
+			}
+			c.Files[name] = txt + fmt.Sprintf("W%dD%d:\n    Ep: ...\n", w, d)
+		}
+		root.WriteString(fmt.Sprintf("import w%dd0\n", w))
+	}
+	c.Files["r.sysl"] = root.String() + "\nRoot:\n    Ep: ...\n"
+	return c
+}
+
 func genC01Closure(t *rapid.T) c01Case {
+	if rapid.IntRange(0, 5).Draw(t, "bigclosure") == 0 {
+		return genC01BigClosure(t)
+	}
 	n := rapid.IntRange(2, 4).Draw(t, "nfiles")
 	c := c01Case{Files: map[string]string{}, Root: "r.sysl", How: "closure"}
 	names := []string{"r.sysl"}
@@ -349,7 +377,7 @@ var c01Mutants = Define("C01", "nearmiss",
 	genC01Mutant, checkC01)
 
 var c01Closures = Define("C01", "closures",
-	"import closures of 2-4 generated/mutated files in an in-memory filesystem with rooted/extension-less spellings, 'as' clauses and ~mode suffixes, self and cyclic imports, missing targets, and foreign members (.yaml/.json garbage and minimal valid OpenAPI, empty/garbage/valid .pb .textpb .pb.json, .xsd); same oracle and non-trivial rule.",
+	"import closures of 2-4 generated/mutated files (one case in six: 1-14 chains of 1-16 trivial files below one root, some ending in an import of the root) in an in-memory filesystem with rooted/extension-less spellings, 'as' clauses and ~mode suffixes, self and cyclic imports, missing targets, and foreign members (.yaml/.json garbage and minimal valid OpenAPI, empty/garbage/valid .pb .textpb .pb.json, .xsd); same oracle and non-trivial rule.",
 	genC01Closure, checkC01)
 
 func TestC01(t *testing.T) {
